@@ -24,7 +24,7 @@ import (
 //   transport_params.go `p.maxUDPPayloadSize < 1200` -> `< 1199`                                   CAUGHT (VerifC28_tp_bytes: accepted max_udp_payload_size >= 1200)
 //   packet_writer.go appendAckFrame gap `... - 1)` -> `...)`                                        CAUGHT (VerifC28_ack_write: wire image)
 //   packet_parser.go consumeAckFrame `- packetNumber(gap) - 2` -> `- 1`                             CAUGHT (VerifC28_ack_parse)
-//   packet_protection.go headerKey.protect long-header mask 0x0f -> 0x1f                           see report (VerifC28_protect_long)
+//   packet_protection.go headerKey.protect long-header mask 0x0f -> 0x1f                           CAUGHT (VerifC28_protect_long)
 //   packet_writer.go startProtectedLongHeaderPacket: space check removed                           survives (the 1200-byte limit is never tight in these harnesses; packet size accounting is C27)
 
 func init() {
